@@ -557,7 +557,7 @@ func checkListCore(r *Reporter, p *Prog) {
 		if fn == nil || !roles.splice[fn] {
 			return "", false
 		}
-		return fn.Name(), true
+		return funcName(fn), true
 	}
 	nHandleMethods := 0
 	for _, fd := range p.Methods(pkg, "list") {
